@@ -96,6 +96,17 @@ class CallMixin:
                 if items is None:
                     raise Unsupported('star-args of a symbolic sequence')
                 args.extend(items)
+            elif isinstance(a, (ast.ListComp, ast.GeneratorExp, ast.SetComp)) and not self.term_mode:
+                try:
+                    args.append(self.eval(a))
+                except Unsupported as ex:
+                    # a comprehension the engine cannot model, built only to be handed to a callee:
+                    # passed on as an opaque value (usable only by a contract that does not look at
+                    # it); evaluating its elements is assumed to have no effect on verified state
+                    from .exprs import OpaqueLiteral
+                    self.notes['havoc'].add(f'{self.frame.qualname}: comprehension argument at line '
+                                            f'{self.cur_line} not modelled ({ex}); passed as opaque')
+                    args.append(const(OpaqueLiteral([])))
             else:
                 args.append(self.eval(a))
         kwargs = {}
@@ -166,6 +177,12 @@ class CallMixin:
         from .engine import BoundSym, Closure
         fv = self.force(fv)
         if fv.kind != CONST:
+            if fv.kind.name == 'callable':
+                # an attribute holding a callback (schema kind `callable`): assumed to have no
+                # effect on the state under verification; recorded in the evidence
+                self.notes['havoc'].add(f'{self.frame.qualname}: opaque callback called at line '
+                                        f'{self.cur_line} (assumed effect-free on verified state)')
+                return NONEV
             if fv.kind.is_obj:
                 return self.call_method(fv, '__call__', args, kwargs)
             raise Unsupported(f'call of {fv.kind}')
@@ -198,6 +215,10 @@ class CallMixin:
             h = getattr(self, 'b_' + name, None)
             if h is not None:
                 return h(args, kwargs)
+        if isinstance(py, types.MethodDescriptorType) \
+                and py.__objclass__ in (set, frozenset, dict, list, str) and args:
+            # unbound form  set.intersection(a, b)  ==  a.intersection(b)
+            return self.builtin_method(self.force(args[0]), py.__name__, list(args[1:]), kwargs)
         # methods of real constant objects (regex patterns ...)
         if isinstance(py, types.BuiltinMethodType) and isinstance(py.__self__, _re.Pattern):
             return self.regex_method(py.__self__, py.__name__, args, kwargs)
@@ -205,7 +226,47 @@ class CallMixin:
             return self.const_method(py, args, kwargs)
         raise Unsupported(f'call of {py!r}')
 
+    def const_lookup(self, py, args):
+        """CONST_DICT.get(sym[, default]) / CONST_LIST.index(sym) with a symbolic str/int key:
+        an if-then-else chain over the entries of the real module constant."""
+        obj, name = py.__self__, py.__name__
+        key = self.force(args[0])
+        if key.kind not in (STR, INT):
+            return None
+        if name == 'get' and isinstance(obj, dict) and len(args) in (1, 2):
+            default = self.force(args[1]) if len(args) == 2 else NONEV
+            items = [(k, self.lift(v)) for k, v in obj.items()
+                     if isinstance(k, str if key.kind == STR else int)]
+            kinds = {v.kind for _, v in items} | {default.kind}
+            if len(kinds) != 1 or default.kind not in (INT, STR, BOOL):
+                return None
+            t = default.t
+            for k, v in reversed(items):
+                t = z3.If(key.t == self.lift(k).t, v.t, t)
+            return SV(default.kind, t)
+        if name == 'index' and isinstance(obj, (list, tuple)) and len(args) == 1:
+            items = [(i, x) for i, x in enumerate(obj) if isinstance(x, str if key.kind == STR else int)]
+            found = z3.Or(*[key.t == self.lift(x).t for _, x in items]) if items else z3.BoolVal(False)
+            if self.term_mode:
+                t = z3.IntVal(-1)
+            elif not self.p.choose(found):
+                self.raise_(ValueError, 'not in list')
+            else:
+                t = z3.IntVal(-1)
+            for i, x in reversed(items):
+                t = z3.If(key.t == self.lift(x).t, i, t)
+            return SV(INT, t)
+        return None
+
     def const_method(self, py, args, kwargs):
+        if py.__name__ in ('get', 'index') and args and not kwargs:
+            a0 = self.force(args[0])
+            args = [a0] + list(args[1:])
+            if a0.kind in (STR, INT) and not z3.is_string_value(z3.simplify(a0.t)) \
+                    and not z3.is_int_value(z3.simplify(a0.t)):
+                r = self.const_lookup(py, args)
+                if r is not None:
+                    return r
         vals = []
         for a in args:
             a = self.force(a)
@@ -263,9 +324,9 @@ class CallMixin:
                 if prm.kind == prm.VAR_POSITIONAL:
                     v = self.make_tuple(list(v))
                 elif prm.kind == prm.VAR_KEYWORD:
-                    if v:
-                        raise Unsupported('**kwargs parameter')
-                    v = const({})
+                    # carried as a constant dict of symbolic values: usable by a callee contract
+                    # that does not look at it; a body that is inlined will not get far with it
+                    v = const(dict(v))
                 env[name] = v
             elif prm.kind == prm.VAR_POSITIONAL:
                 env[name] = self.make_tuple([])
@@ -291,6 +352,9 @@ class CallMixin:
                 ts.append(self.coerce(a, k))
             return self.wf_value(SV(rk, F(*ts)))
         tgt = self.target_of(f)
+        if not self.term_mode and len(self.frames) == 1 and self.frame.contract is not None \
+                and self.frame.contract.callsite:
+            self.callsite_obligations(tgt, f, args, kwargs)
         c = self.select_contract(tgt, f, args, kwargs)
         if c is not None and not self.term_mode:
             return self.apply_contract(c, f, args, kwargs)
@@ -300,6 +364,30 @@ class CallMixin:
             # spec code calling real pure helpers: inline in term mode
             return self.inline(f, args, kwargs, owner, spec=True)
         return self.inline(f, args, kwargs, owner)
+
+    def callsite_obligations(self, tgt, f, args, kwargs):
+        """`callsite={'Callee.name': [clauses]}` of the function under verification: each clause is an
+        assertion placed before EVERY call of that callee in the body (also calls added later), over
+        the caller's locals and the bound arguments of the call (as a_<parameter>)."""
+        fr = self.frame
+        cc = fr.contract
+        qn = tgt.split(':')[1]
+        clauses = cc.callsite.get(qn) or cc.callsite.get(qn.split('.')[-1])
+        if not clauses:
+            return
+        env = dict(fr.locals)
+        for k, v in self.bind(f, args, kwargs).items():
+            env['a_' + k] = v
+        key = 'cs:' + qn
+        ordk = fr.call_ordinals.get(key, 0)
+        fr.call_ordinals[key] = ordk + 1
+        saved_old = self.old
+        try:
+            for i, src in enumerate(clauses):
+                t = self.eval_clause(src, env=env, contract=cc, polarity=1)
+                self.prove(f'{fr.qualname}::callsite({qn}#{ordk})[{i}]', t)
+        finally:
+            self.old = saved_old
 
     def select_contract(self, tgt, f, args, kwargs):
         cands = [c for c in self.reg.by_target.get(tgt, ()) if not c.verify_only]
@@ -529,17 +617,33 @@ class CallMixin:
                 t = self.eval_clause(cond, env=penv, contract=c)
                 if p.choose(t):
                     raise PyRaise(self.exc_class(exc, c), None, f'{c.short} raises {exc}')
+            never = None
+            if c.may_raise and c.returns_when:
+                # pre-state conditions under which the callee is known to return normally
+                never = z3.And(*[self.eval_clause(w, env=penv, contract=c) for w in c.returns_when])
             for exc in c.may_raise:
                 b = p.fresh('mayraise', B)
+                if never is not None:
+                    b = z3.And(b, z3.Not(never))
                 if p.choose(b):
                     raise PyRaise(self.exc_class(exc, c), None, f'{c.short} may raise {exc}')
             if not c.pure:
                 p.bump_next()
+                for v in env.values():
+                    # whatever is handed to an effectful callee may be reached (and changed) by it
+                    if isinstance(v, SV) and v.kind.is_ref and v.t is not None:
+                        p.escaped.add(str(v.t))
             self.havoc_locations(c.modifies, 'call', env=penv, contract=c)
             rk = parse_kind(c.sorts.get('result', 'none'))
             skip = None
             if constructing:
                 res = env[selfname]
+                # the fields of the new object hold what the constructor stored - possibly objects
+                # it allocated itself (the frontier was bumped above): unknown values that only the
+                # contract's ensures describe, not the initial heap's values at that address
+                if c.pure:
+                    p.bump_next()
+                self.havoc_fresh(res)
                 penv['result'] = res
             elif c.fresh:
                 inner = rk
@@ -574,6 +678,16 @@ class CallMixin:
                 if name == skip:
                     continue
                 p.assume(self.eval_clause(en, env=penv, contract=c))
+            if not self.term_mode and not p.speculating and (c.ensures or c.trusted_ensures):
+                # vacuity guard: a callee contract that contradicts what is known at the call site
+                # would make everything after the call provable.  The path is dropped; if NO path
+                # survives this call site the function's verification is an error (verify.py).
+                site = f'{c.short}#{ordk}'
+                stat = self.site_stats.setdefault(site, [0, 0])
+                if p.qf.check() == z3.unsat:
+                    stat[1] += 1
+                    raise Infeasible()
+                stat[0] += 1
         finally:
             self.old = saved_old
         return res
@@ -913,6 +1027,9 @@ class CallMixin:
             rest = loc[4:]
             if rest == '[*]':
                 return ('allcontent',)
+            if rest == 'heap[*]':
+                # every container except those allocated here and not yet stored / passed on
+                return ('heapcontent',)
             if rest == 'fresh[*]':
                 # the content of every container allocated since the function was entered
                 return ('freshcontent',)
@@ -959,6 +1076,7 @@ class CallMixin:
 
     def havoc_locations(self, locs, why, env=None, contract=None):
         p = self.p
+        kinds = []
         for loc in locs:
             d = self.parse_location(loc, env, contract)
             if d[0] == 'field':
@@ -983,11 +1101,18 @@ class CallMixin:
                 arr = p.fresh('HV_' + key, z3.ArraySort(I, sort_of(fk)))
                 p.bounds[str(arr)] = p.next
                 p.heap[key] = arr
-            elif d[0] == 'allcontent':
+            elif d[0] in ('allcontent', 'heapcontent'):
+                # A callee (or, with all:heap[*], a loop body) cannot reach a container that this
+                # function allocated and never stored or passed on: those keep their content.
+                keep = [r for s, r in p.local_fresh.items() if s not in p.escaped] \
+                    if (why == 'call' or d[0] == 'heapcontent') else []
                 for key in list(p.heap):
                     if key.startswith(self.CONTENT_PREFIXES):
-                        arr = p.fresh('HV_' + key, p.heap[key].sort())
+                        oldarr = p.heap[key]
+                        arr = p.fresh('HV_' + key, oldarr.sort())
                         p.bounds[str(arr)] = p.next
+                        for r in keep:
+                            p.assume(z3.Select(arr, r) == z3.Select(oldarr, r))
                         p.heap[key] = arr
             elif d[0] == 'freshcontent':
                 r = z3.Int('r!fc')
@@ -996,23 +1121,44 @@ class CallMixin:
                         oldarr = p.heap[key]
                         arr = p.fresh('HV_' + key, oldarr.sort())
                         p.bounds[str(arr)] = p.next
-                        p.assume(z3.ForAll([r], z3.Implies(r < p.next0,
-                                                           z3.Select(arr, r) == z3.Select(oldarr, r)),
-                                           patterns=[z3.Select(arr, r)]))
-                        p.heap[key] = arr
+                        # pointwise: cells of containers that existed at entry keep their content
+                        # (an array lambda: no quantified frame axiom for the solver to instantiate)
+                        p.heap[key] = z3.Lambda([r], z3.If(r < p.next0, z3.Select(oldarr, r),
+                                                           z3.Select(arr, r)))
             elif d[0] == 'kindcontent':
-                tag = self.kind_tag(d[1])
-                dt = self.dtype_arr()
-                r = z3.Int('r!kc')
-                for key in list(p.heap):
-                    if key.startswith(self.CONTENT_PREFIXES):
-                        oldarr = p.heap[key]
-                        arr = p.fresh('HV_' + key, oldarr.sort())
-                        p.bounds[str(arr)] = p.next
-                        p.assume(z3.ForAll([r], z3.Implies(z3.Select(dt, r) != tag,
-                                                           z3.Select(arr, r) == z3.Select(oldarr, r)),
-                                           patterns=[z3.Select(arr, r)]))
-                        p.heap[key] = arr
+                kinds.append(d[1])
+        if kinds:
+            # all `all:<kind>[*]` locations of one havoc at once: per content array ONE pointwise
+            # update (an array lambda, no quantified frame axiom) that gives new content exactly to
+            # the containers whose kind is listed and whose content lives in that array
+            dt = self.dtype_arr()
+            r = z3.Int('r!kc')
+            per_key = {}
+            for k in kinds:
+                for key in self.content_keys(k):
+                    per_key.setdefault(key, []).append(self.kind_tag(k))
+            for key, tags in per_key.items():
+                oldarr = p.heap[key]
+                arr = p.fresh('HV_' + key, oldarr.sort())
+                p.bounds[str(arr)] = p.next
+                hit = z3.Or(*[z3.Select(dt, r) == t for t in sorted(set(tags))])
+                p.heap[key] = z3.Lambda([r], z3.If(hit, z3.Select(arr, r), z3.Select(oldarr, r)))
+
+    def content_keys(self, k):
+        """heap arrays that hold the content of containers of kind k (created if not read so far)"""
+        if k.is_list:
+            self.len_arr()
+            self.elems_arr(k.elem)
+            return ['@len', '@elems:' + sort_name(sort_of(k.elem))]
+        if k.is_set:
+            self.mem_arr(k.elem)
+            return ['@mem:' + sort_name(sort_of(k.elem))]
+        if k.is_dict:
+            ks, vs = sort_of(k.key), sort_of(k.val)
+            self.has_arr(k.key)
+            self.val_arr(k.key, k.val)
+            return ['@has:' + sort_name(ks), f'@val:{sort_name(ks)}:{sort_name(vs)}']
+        raise Unsupported(f'content of {k}')
 
     def havoc_fresh_content(self, v):
         if v.kind.is_obj:
@@ -1042,8 +1188,12 @@ class CallMixin:
             elif d[0] == 'allcontent':
                 if key.startswith(self.CONTENT_PREFIXES):
                     return True
-            elif d[0] == 'kindcontent':
+            elif d[0] == 'heapcontent':
                 if key.startswith(self.CONTENT_PREFIXES):
+                    out.append(('nonlocal', [r for s, r in self.p.local_fresh.items()
+                                             if s not in self.p.escaped]))
+            elif d[0] == 'kindcontent':
+                if key.startswith(self.CONTENT_PREFIXES) and key in self.content_keys(d[1]):
                     out.append(('tag', self.kind_tag(d[1])))
             elif d[0] == 'freshcontent':
                 if key.startswith(self.CONTENT_PREFIXES):
@@ -1058,6 +1208,8 @@ class CallMixin:
                 cs.append(z3.Select(self.dtype_arr(), r) != a[1])
             elif isinstance(a, tuple) and a[0] == 'fresh':
                 cs.append(r < self.p.next0)
+            elif isinstance(a, tuple) and a[0] == 'nonlocal':
+                cs.append(z3.Or(*[r == x for x in a[1]]) if a[1] else z3.BoolVal(False))
             else:
                 cs.append(r != a)
         return cs
